@@ -254,6 +254,7 @@ func checkC17(c *Ctx, r *Report) {
 	c.checkRecover(r, parse)
 	c.checkParseReturns(r, parse)
 	c.checkParseReach(r, parse)
+	c.checkParseInput(r, parse)
 	g := readGrammar(filepath.Join(c.Repo, "expr", "Expr.g4"))
 	if g.Err != "" {
 		r.Undecided("C17.anchor:grammar", "expr/Expr.g4", "cannot read the grammar: %s", g.Err)
@@ -460,6 +461,34 @@ func (c *Ctx) checkParseReturns(r *Report, parse *ssa.Function) {
 	}
 }
 
+// checkParseInput: the text handed to the lexer is the argument itself, at most trimmed at its ends; any other
+// rewriting is not token-aware and changes the content of string literals.
+func (c *Ctx) checkParseInput(r *Report, parse *ssa.Function) {
+	key := "C17.input:" + fname(parse)
+	n := 0
+	eachInstr(parse, func(in ssa.Instruction) {
+		call, ok := in.(*ssa.Call)
+		if !ok {
+			return
+		}
+		s := call.Common().StaticCallee()
+		if s == nil || s.Name() != "NewInputStream" {
+			return
+		}
+		n++
+		p := c.prov(call.Call.Args[0], &Frame{Fn: parse}).String()
+		arg := "param:" + parse.Params[0].Name()
+		if p == arg || p == "strings.TrimSpace("+arg+")" {
+			r.OK(key, "the lexer reads %s", p)
+		} else {
+			r.Fail(key, c.instrPos(in), "the input is rewritten before lexing (%s): the rewrite is not token-aware, so whitespace or other characters inside string literals change and the value in the map is not the literal's value", p)
+		}
+	})
+	if n == 0 {
+		r.Undecided(key, c.pos(parse.Pos()), "no ANTLR input stream constructed in Parse")
+	}
+}
+
 func (c *Ctx) checkParseReach(r *Report, parse *ssa.Function) {
 	key := "C17.no-escape:" + fname(parse)
 	var bad []string
@@ -567,6 +596,36 @@ func (c *Ctx) checkUnquoter(r *Report, g *grammarInfo) {
 	})
 	if callee.Signature.Results().Len() != 1 {
 		bad = append(bad, "the unquoter has an error result that the walker must handle")
+	}
+	// the token's surrounding quotes are removed by slicing exactly one byte off each end
+	strip := false
+	eachInstr(callee, func(in ssa.Instruction) {
+		switch x := in.(type) {
+		case *ssa.Slice:
+			if x.X == ssa.Value(callee.Params[0]) {
+				lo, okLo := constInt(x.Low)
+				hp := ""
+				if x.High != nil {
+					hp = c.prov(x.High, &Frame{Fn: callee}).String()
+				}
+				if okLo && lo == 1 && hp == "binop:-(builtin:len(param:"+callee.Params[0].Name()+"), 1)" {
+					strip = true
+				} else {
+					bad = append(bad, "the token is re-sliced as ["+fmt.Sprint(lo)+":"+hp+"] instead of [1:len-1]")
+				}
+			}
+		case *ssa.Call:
+			if s := x.Common().StaticCallee(); s != nil && s.Object() != nil && s.Object().Pkg() != nil && s.Object().Pkg().Path() == "strings" && strings.HasPrefix(s.Name(), "Trim") {
+				for _, a := range x.Call.Args {
+					if a == ssa.Value(callee.Params[0]) {
+						bad = append(bad, "the quotes are removed with strings."+s.Name()+", which strips every matching character at the ends: a literal ending in an escaped quote (\\\") loses it")
+					}
+				}
+			}
+		}
+	})
+	if !strip && len(bad) == 0 {
+		bad = append(bad, "the surrounding quotes are not removed by slicing [1:len-1]")
 	}
 	table, hasDefaultIdentity, ok := c.unquoteSwitchTable(callee)
 	if !ok {
@@ -731,7 +790,8 @@ func (c *Ctx) checkExprKeys(r *Report) {
 			kp := c.prov(mu.Key, fr).String()
 			vp := c.prov(mu.Value, fr).String()
 			key := fmt.Sprintf("C17.keys:%s#%d", fname(f), n)
-			isType := strings.Contains(vp, "IDENT") && strings.Contains(vp, "param:ctx") && !strings.Contains(vp, "Value")
+			isType := strings.Contains(vp, "IDENT") && !strings.Contains(vp, "Value")
+			kp = strings.ReplaceAll(kp, "param:"+paramOfType(f, isStringType), "param:key")
 			switch {
 			case isType:
 				if kp == `phi:phi("type", concat:concat(param:key, ".type"))` || kp == `phi:phi(concat:concat(param:key, ".type"), "type")` {
